@@ -255,9 +255,17 @@ class SoftwareManager:
                 nmap.receive(payload=payload, session_id=session_id)
             return
         main_receiver = self.port_protocol_mapping.get((port, protocol), None)
-        if main_receiver and main_receiver.operating_state not in running:
-            # software that is not running does not handle payloads
-            main_receiver = None
+        if main_receiver is None or main_receiver.operating_state not in running:
+            # software that is not running does not handle payloads; the map holds one entry per (port, protocol), so
+            # fall back to any other running software that uses the same port
+            main_receiver = next(
+                (
+                    s
+                    for s in self.software.values()
+                    if (s.port, s.protocol) == (port, protocol) and s.operating_state in running
+                ),
+                None,
+            )
         if main_receiver:
             main_receiver.receive(
                 payload=payload, session_id=session_id, from_network_interface=from_network_interface, frame=frame
